@@ -431,6 +431,7 @@ def dataclass_value(rng, cls, hostile=0.0):
             "count": rng.choice([None, 3]),
             "pt": dataclass_value(rng, zoo.Point),
             "ratio": rng.choice([0.5, 0.75]),
+            "limit": rng.choice([None, None, 30.0, 2.5]),
         }
     raise AssertionError(cls)
 
@@ -628,5 +629,5 @@ def nearmiss(rng, t, allow_none=True):
 DATACLASS_FIELD_T = {
     zoo.Point: {"x": INT, "y": FLOAT},
     zoo.Inner: {"name": STR, "tags": list_t(STR), "color": ENUMS[0]},
-    zoo.Outer: {"inner": DATACLASSES[1], "count": optional_t(INT), "pt": DATACLASSES[0], "ratio": FLOAT},
+    zoo.Outer: {"inner": DATACLASSES[1], "count": optional_t(INT), "pt": DATACLASSES[0], "ratio": FLOAT, "limit": optional_t(FLOAT)},
 }
